@@ -257,6 +257,18 @@ void famDataTypes(Ctx& c, long hi)
         tc.sig = mix64(200, dt);
         runCase(c, tc);
         c.count("data_types_swept");
+        // the same value on the two status kinds (their kind is the message type; the data type is an arbitrary header field)
+        TCase st = (lo % 2) ? mkCm(r, -1) : mkBus(r, static_cast<size_t>(lo % 5), 0);
+        st.h.dataType = dt;
+        st.what += ", data type " + std::to_string(dt);
+        st.sig = mix64(201, dt);
+        runCase(c, st);
+        TCase st2 = (lo % 2) ? mkBus(r, static_cast<size_t>(1 + lo % 3), 0) : mkCm(r, -1);
+        st2.h.dataType = dt;
+        st2.what += ", data type " + std::to_string(dt);
+        st2.sig = mix64(202, dt);
+        runCase(c, st2);
+        c.count("data_types_swept_on_status_messages");
     }
 }
 // C: lengths: CAN 0..8, CAN-FD 0..64, LIN 0..8 x CRC bytes {0,1,2,3} x inner length delta {-1,0,+1,0xFF}
@@ -419,6 +431,48 @@ void randomCaseInner(Ctx& c, long idx)
         runCase(c, tc);
         if (c.samples.size() < 4)
             c.sample(tc.what + " frame=" + hex(tc.h.frame(tc.payload), 80), 4);
+        // near-duplicates directly behind the original: the same message with ONE header field or ONE payload byte changed
+        // (or everything behind the first 12 payload bytes renewed), then the original again. The conversion is a pure
+        // function of the frame, so each is judged on its own; a result remembered from the previous frame under a key
+        // that leaves the changed part out shows as a mismatch.
+        if (r.chance(1, 2))
+        {
+            unsigned n = 1 + static_cast<unsigned>(r.below(3));
+            for (unsigned k = 0; k < n; ++k)
+            {
+                TCase sib = tc;
+                unsigned how = static_cast<unsigned>(r.below(10));
+                if (how < 5 && !sib.payload.empty())
+                {
+                    size_t pos = r.chance(1, 3) && sib.payload.size() > 12 ? 12 + r.below(sib.payload.size() - 12) : r.below(sib.payload.size());
+                    sib.payload[pos] = static_cast<uint8_t>(sib.payload[pos] ^ (1u << r.below(8)));
+                    sib.what += ", then the same with payload byte " + std::to_string(pos) + " changed";
+                }
+                else if (how < 7 && sib.payload.size() > 12)
+                {
+                    for (size_t q = 12; q < sib.payload.size(); ++q)
+                        sib.payload[q] = r.byte();
+                    sib.what += ", then the same with everything behind payload byte 12 renewed";
+                }
+                else
+                {
+                    switch (r.below(6))
+                    {
+                        case 0: sib.h.device = static_cast<uint8_t>(sib.h.device + 1 + r.below(255)); break;
+                        case 1: sib.h.interfaceId ^= 1u << r.below(32); break;
+                        case 2: sib.h.timestamp ^= 1ull << r.below(64); break;
+                        case 3: sib.h.dataFlags ^= static_cast<uint16_t>(1u << r.below(16)); break;
+                        case 4: sib.h.counter = static_cast<uint16_t>(sib.h.counter + 1); break;
+                        default: sib.h.deviceFlags ^= static_cast<uint16_t>(1u << r.below(16)); break;
+                    }
+                    sib.what += ", then the same with one header field changed";
+                }
+                sib.sig = mix64(tc.sig, 600 + how);
+                runCase(c, sib);
+                c.count("near_duplicates_behind_their_original");
+            }
+            runCase(c, tc);
+        }
     }
 }
 
